@@ -235,6 +235,20 @@ def point_symbols(truth):
             break
     miss = Point(1000.0, 1000.0)
     holes = [n for n, c in enumerate(truth.polygons) if c is None]
+    # prefer a point outside every cell that is still inside the bounding box of exactly one cell
+    for n in valid:
+        minx, miny, maxx, maxy = polys[n].bounds
+        found = None
+        for fx, fy in ((0.03125, 0.03125), (0.96875, 0.03125), (0.03125, 0.96875), (0.96875, 0.96875)):
+            candidate = Point(minx + fx * (maxx - minx), miny + fy * (maxy - miny))
+            if not ref.brute_hits(polys, candidate):
+                boxes = [m for m in valid if polys[m].envelope.intersects(candidate)]
+                if len(boxes) == 1:
+                    found = candidate
+                    break
+        if found is not None:
+            miss = found
+            break
     symbols['miss'] = miss
     symbols['_polys'] = polys
     symbols['_has_tie'] = tie is not None
